@@ -68,6 +68,11 @@ def family(tier):
     fam.append(('exotic:l2', [c02.ev(('m', ('n', 0, [('m', ('n', 1, [('p', 2, ('n', 2, [('p', 1, ('n', 3, []))]))])), ('p', 1, ('n', 4, []))])))]))
     fam.append(('exotic:lib', [RC.RCell('1', (RC.library(bytes(range(32))),))]))
     fam.append(('exotic:mask7', [RC.RCell('1', (RC.pruned_raw(7, [bytes([i]) * 32 for i in (1, 2, 3)], [1, 2, 3]), RC.RCell('0')))]))
+    # an exotic cell and an ordinary cell with identical bits in one bag (both orders)
+    lib = RC.library(bytes(range(32)))
+    fam.append(('twin:lib', [RC.RCell('1', (lib, RC.RCell(lib.bits)))]))
+    pr = RC.prune(RC.RCell('1010', (RC.RCell('1'),)), 1)
+    fam.append(('twin:pruned', [RC.mproof(RC.RCell('01', (RC.RCell(pr.bits), pr)))]))
     # forests: two unrelated roots; two roots sharing a child
     a, b = RC.RCell('1010'), RC.RCell('0101')
     fam.append(('forest:2', [RC.RCell('11', (a,)), RC.RCell('00', (b, a))]))
